@@ -12,6 +12,7 @@ mod rng;
 mod tree;
 mod c01;
 mod c04;
+mod c05;
 mod pushio;
 
 use std::io::Write;
@@ -41,7 +42,7 @@ pub struct Prop {
 }
 
 fn props() -> Vec<Prop> {
-    vec![c01::PROP, c01::PROP2, c01::PROP3, c04::PROP]
+    vec![c01::PROP, c01::PROP2, c01::PROP3, c04::PROP, c05::PROP]
 }
 
 /// observation used when the implementation panicked
@@ -122,7 +123,23 @@ fn real_main() {
     }
 }
 
+fn deep_probe(args: &[String]) {
+    {
+        // D7 probe, run in a child process on the plain main thread (8 MiB stack, as a user's
+        // program would): a genome of n consecutive block-opening genes
+        let n: usize = args[2].parse().expect("n");
+        let t = tree::Tree::L(vec![tree::A(3), tree::Tree::L(vec![tl![tree::A(28)]; n])]);
+        let r = (c05::PROP.run)(&t);
+        println!("deep {} ok {}", n, r.is_some());
+    }
+}
+
 fn main() {
+    let args: Vec<String> = std::env::args().collect();
+    if args.len() > 2 && args[1] == "deep" {
+        deep_probe(&args);
+        return;
+    }
     // generous native stack: deep programs must not die in the harness for lack of it
     let t = std::thread::Builder::new().stack_size(1 << 30).spawn(real_main).expect("spawn");
     if t.join().is_err() {
